@@ -22,7 +22,8 @@ import (
 // Loss, duplication and reordering are not injected: TCP does not exhibit them.
 
 type SimConnCfg struct {
-	Chunk int `json:"chunk"` // bytes forwarded per step and buffered per direction (16..65536)
+	Chunk      int   `json:"chunk"`                  // bytes forwarded per step and buffered per direction (1..65536)
+	ResetAtC2S int64 `json:"reset_at_c2s,omitempty"` // reset after that many client-to-server bytes (0: never)
 }
 
 // timedConn records when writes start and complete (server side).
@@ -67,6 +68,10 @@ type WSLink struct {
 	BytesC2S  atomic.Int64
 	closed    atomic.Bool
 	cA, sA    net.Conn
+	// ResetAtC2S > 0: the connection is reset once that many client-to-server
+	// bytes have been forwarded (possibly in the middle of a frame).
+	ResetAtC2S int64
+	WasReset   atomic.Bool
 }
 
 // StallS2C makes the peer stop reading (server-to-client bytes are no longer
@@ -107,11 +112,22 @@ func (l *WSLink) pump(name string, src, dst net.Conn, cnt *atomic.Int64, stallab
 				if stallable && l.s2cStall.Load() {
 					<-l.resume
 				}
-				m, werr := dst.Write(buf[off:n])
+				end := n
+				if !stallable && l.ResetAtC2S > 0 {
+					if left := l.ResetAtC2S - cnt.Load(); left < int64(end-off) {
+						end = off + int(left)
+					}
+				}
+				m, werr := dst.Write(buf[off:end])
 				off += m
 				cnt.Add(int64(m))
 				if werr != nil {
 					src.Close()
+					return
+				}
+				if !stallable && l.ResetAtC2S > 0 && cnt.Load() >= l.ResetAtC2S {
+					l.WasReset.Store(true)
+					l.Reset()
 					return
 				}
 			}
@@ -158,7 +174,7 @@ func (t *wsTransport) RoundTrip(req *http.Request) (*http.Response, error) {
 	// client <-> cB ... pumps ... sB <-> server
 	cA, cB := net.Pipe()
 	sA, sB := net.Pipe()
-	l := &WSLink{Name: t.name, sim: t.sim, cfg: t.cfg, clientEnd: cA, Server: &timedConn{Conn: sA}, resume: make(chan struct{}, 1), cA: cB, sA: sB}
+	l := &WSLink{Name: t.name, sim: t.sim, cfg: t.cfg, ResetAtC2S: t.cfg.ResetAtC2S, clientEnd: cA, Server: &timedConn{Conn: sA}, resume: make(chan struct{}, 1), cA: cB, sA: sB}
 	t.link = l
 	go l.pump(t.name+".c2s", cB, sB, &l.BytesC2S, false)
 	go l.pump(t.name+".s2c", sB, cB, &l.BytesS2C, true)
